@@ -1,6 +1,8 @@
 """C09 - cache reuse."""
 from . import cachefam as F
 
+from . import extra as X
+
 EXPLANATION = ("Structural conditions for reuse: lookup dominates work and the hit branch returns early; every recursion "
                "level files its result and hands the cache down; per back-end the writer's and the readers' location "
                "expressions agree; SQL factories keep one row per key; combinators store when admitting and consult both "
@@ -17,3 +19,4 @@ def run(chk):
     F.rule_one_row_per_key(chk, chk.repo, "C09.4")
     F.rule_combinator_store(chk, chk.repo, "C09.5")
     F.rule_progress_metadata_guard(chk, ev, "C09.7")
+    X.rule_trigger_complements_guard(chk, "C09.8")
